@@ -569,7 +569,7 @@ class QasmModule(ABC):  # pylint: disable=too-many-instance-attributes
             str: The string representation of the module
         """
 
-        if len(self._unrolled_ast.statements) > 1:
+        if len(self._unrolled_ast.statements) > 0:
             return self._qasm_ast_to_str(self.unrolled_ast)
         return self._qasm_ast_to_str(self.original_program)
 
